@@ -4,6 +4,7 @@ package main
 
 import (
 	"fmt"
+	"reflect"
 	"strings"
 
 	ad "github.com/pbenner/autodiff"
@@ -21,6 +22,8 @@ type Case struct {
 	B     string   `json:"b"`
 	CT    string   `json:"const_type,omitempty"` // element type of SparseConst*Vector operands (storage letter c) and of VasConst/VnewConst
 	Hist  string   `json:"history,omitempty"`    // read-only uses of one operand before the judged call, e.g. "a:S0.1,I" (hist.go)
+	Life  string   `json:"life,omitempty"`       // whole-container writers applied to the receiver before the judged call, e.g. "Xs,Z" (life.go)
+	Conc  bool     `json:"concrete,omitempty"`   // the judged call goes through the concrete method (VADDV, MDOTM, EQUALS, ...) of the receiver's type (conc.go)
 	Elem  string   `json:"elem_label,omitempty"`
 	Types []string `json:"failing_types,omitempty"`
 }
@@ -32,6 +35,12 @@ func (cs *Case) String() string {
 	}
 	if cs.Hist != "" {
 		s += " history=" + cs.Hist
+	}
+	if cs.Life != "" {
+		s += " life=" + cs.Life
+	}
+	if cs.Conc {
+		s += " concrete"
 	}
 	return s
 }
@@ -169,6 +178,10 @@ type obs struct {
 	dimErr   string
 	getter   string // Float64At disagrees with ConstAt
 	hist     string // a read of the history saw something else than the operand's content
+	view     string // the result seen through iteration differs from the result seen through random access (view.go)
+	viewKind string
+	viewPos  int
+	noConc   bool   // no concrete method of that name/signature for these operand types
 	rtyp     string // element type of the container the result was read from
 }
 
@@ -208,6 +221,9 @@ func (o *obs) readVec(v ad.ConstVector, want int, n int, varM bool, typ string) 
 			o.getter = fmt.Sprintf("Float64At(%d)=%v but ConstAt(%d)=%v", i, f, i, o.res[i].v)
 		}
 	}
+	if o.getter == "" {
+		o.viewVec(v, n, varM)
+	}
 }
 
 func (o *obs) readMat(m ad.ConstMatrix, r, c int, n int, varM bool, typ string) {
@@ -224,6 +240,9 @@ func (o *obs) readMat(m ad.ConstMatrix, r, c int, n int, varM bool, typ string) 
 				o.getter = fmt.Sprintf("Float64At(%d,%d)=%v but ConstAt=%v", i, j, f, o.res[i*c+j].v)
 			}
 		}
+	}
+	if o.getter == "" {
+		o.viewMat(m, r, c, n, varM)
 	}
 }
 
@@ -275,34 +294,60 @@ func run(cs *Case, t *tinfo) (o *obs) {
 		}
 		o.hist = hb.apply(ob[hs], steps)
 	}
+	if cs.Life != "" {
+		applyLife(ob[0], cs.Life, t, slots[0])
+	}
 	vec := func(i int) ad.Vector { return ob[i].(ad.Vector) }
 	cv := func(i int) ad.ConstVector { return ob[i].(ad.ConstVector) }
 	mat := func(i int) ad.Matrix { return ob[i].(ad.Matrix) }
 	sc := func(i int) ad.Scalar { return ob[i].(ad.Scalar) }
+	gen := !cs.Conc // the judged call goes through the interface method
+	concB := false
+	if cs.Conc {
+		var args []any
+		for i := 1; i < 3; i++ {
+			if ob[i] != nil {
+				args = append(args, ob[i])
+			}
+		}
+		if cs.Op == "Vequals" || cs.Op == "Mequals" {
+			args = append(args, cs.eps())
+		}
+		m, in, ok := concMethod(ob[0], cs.Op, args...)
+		if !ok {
+			o.noConc = true
+			return o
+		}
+		if out := m.Call(in); len(out) == 1 && out[0].Kind() == reflect.Bool {
+			concB = out[0].Bool()
+		}
+	}
 	switch cs.Op {
 	case "VaddV", "VsubV", "VmulV", "VdivV":
 		a, bb, r := cv(1), cv(2), vec(0)
-		switch cs.Op {
-		case "VaddV":
+		switch {
+		case !gen:
+		case cs.Op == "VaddV":
 			r.VaddV(a, bb)
-		case "VsubV":
+		case cs.Op == "VsubV":
 			r.VsubV(a, bb)
-		case "VmulV":
+		case cs.Op == "VmulV":
 			r.VmulV(a, bb)
-		case "VdivV":
+		case cs.Op == "VdivV":
 			r.VdivV(a, bb)
 		}
 		o.readVec(r, d[0], n, cs.Var, t.name)
 	case "VaddS", "VsubS", "VmulS", "VdivS":
 		a, s, r := cv(1), sc(2), vec(0)
-		switch cs.Op {
-		case "VaddS":
+		switch {
+		case !gen:
+		case cs.Op == "VaddS":
 			r.VaddS(a, s)
-		case "VsubS":
+		case cs.Op == "VsubS":
 			r.VsubS(a, s)
-		case "VmulS":
+		case cs.Op == "VmulS":
 			r.VmulS(a, s)
-		case "VdivS":
+		case cs.Op == "VdivS":
 			r.VdivS(a, s)
 		}
 		o.readVec(r, d[0], n, cs.Var, t.name)
@@ -312,19 +357,29 @@ func run(cs *Case, t *tinfo) (o *obs) {
 		o.res = []jet{readScalar(r, n, cs.Var)}
 	case "MdotV":
 		r := vec(0)
-		r.MdotV(mat(1), cv(2))
+		if gen {
+			r.MdotV(mat(1), cv(2))
+		}
 		o.readVec(r, d[0], n, cs.Var, t.name)
 	case "VdotM":
 		r := vec(0)
-		r.VdotM(cv(1), mat(2))
+		if gen {
+			r.VdotM(cv(1), mat(2))
+		}
 		o.readVec(r, d[1], n, cs.Var, t.name)
 	case "Vset":
 		r := vec(0)
-		r.Set(cv(1))
+		if gen {
+			r.Set(cv(1))
+		}
 		o.readVec(r, d[0], n, cs.Var, t.name)
 	case "Vequals", "VequalsE":
 		r := cv(0)
-		o.isB, o.b = true, r.Equals(cv(1), cs.eps())
+		if gen {
+			o.isB, o.b = true, r.Equals(cv(1), cs.eps())
+		} else {
+			o.isB, o.b = true, concB
+		}
 		rt := t.name
 		if cs.Stor[0] == 'c' {
 			rt = cs.CT
@@ -351,45 +406,57 @@ func run(cs *Case, t *tinfo) (o *obs) {
 		o.readVec(t.newDenseVec(vals), d[0], 0, false, t.name)
 	case "MaddM", "MsubM", "MmulM", "MdivM":
 		a, bb, r := mat(1), mat(2), mat(0)
-		switch cs.Op {
-		case "MaddM":
+		switch {
+		case !gen:
+		case cs.Op == "MaddM":
 			r.MaddM(a, bb)
-		case "MsubM":
+		case cs.Op == "MsubM":
 			r.MsubM(a, bb)
-		case "MmulM":
+		case cs.Op == "MmulM":
 			r.MmulM(a, bb)
-		case "MdivM":
+		case cs.Op == "MdivM":
 			r.MdivM(a, bb)
 		}
 		o.readMat(r, d[0], d[1], n, cs.Var, t.name)
 	case "MaddS", "MsubS", "MmulS", "MdivS":
 		a, s, r := mat(1), sc(2), mat(0)
-		switch cs.Op {
-		case "MaddS":
+		switch {
+		case !gen:
+		case cs.Op == "MaddS":
 			r.MaddS(a, s)
-		case "MsubS":
+		case cs.Op == "MsubS":
 			r.MsubS(a, s)
-		case "MmulS":
+		case cs.Op == "MmulS":
 			r.MmulS(a, s)
-		case "MdivS":
+		case cs.Op == "MdivS":
 			r.MdivS(a, s)
 		}
 		o.readMat(r, d[0], d[1], n, cs.Var, t.name)
 	case "MdotM":
 		r := mat(0)
-		r.MdotM(mat(1), mat(2))
+		if gen {
+			r.MdotM(mat(1), mat(2))
+		}
 		o.readMat(r, d[0], d[2], n, cs.Var, t.name)
 	case "Outer":
 		r := mat(0)
-		r.Outer(cv(1), cv(2))
+		if gen {
+			r.Outer(cv(1), cv(2))
+		}
 		o.readMat(r, d[0], d[1], n, cs.Var, t.name)
 	case "Mset":
 		r := mat(0)
-		r.Set(mat(1))
+		if gen {
+			r.Set(mat(1))
+		}
 		o.readMat(r, d[0], d[1], n, cs.Var, t.name)
 	case "Mequals", "MequalsE":
 		r := mat(0)
-		o.isB, o.b = true, r.Equals(mat(1), cs.eps())
+		if gen {
+			o.isB, o.b = true, r.Equals(mat(1), cs.eps())
+		} else {
+			o.isB, o.b = true, concB
+		}
 		o.readMat(r, d[0], d[1], n, cs.Var, t.name)
 	case "Mreset":
 		r := mat(0)
